@@ -356,9 +356,13 @@ def run(ctx):
     ctx.cov["input_distribution"] = stats["counters"]
     if not os.environ.get("VERIF_C13_ONLY"):
         low = {k: (stats["counters"].get(k, 0), v) for k, v in FLOORS.items() if stats["counters"].get(k, 0) < v}
-        if low:
+        if low and not ctx.violations:
             ctx.say("GENERATOR-BELOW-FLOOR (reached, required):", low)
             return 2
+        if low:
+            # a concrete violation was already found: it is the verdict; the missed floor (often a consequence of the
+            # same defect, e.g. a class the broken code no longer reaches) is reported as a note only
+            ctx.say("note: generator floor missed in a run that also found violations:", low)
     ctx.cov["ops_per_stream"] = per_stream
     def some(name, pred, n):
         p = os.path.join(ctx.out, name + ".ops")
